@@ -158,9 +158,23 @@ type capture struct {
 type captureBackend struct {
 	r       *mon.Run
 	spy     *spyStatser
-	workers int // server mode: no spy statser; flushes are sequential, so every W consecutive maps are one flush
+	workers int // server mode: no spy statser; see pending / group below
 	mu      sync.Mutex
 	all     []capture
+	// slim (server mode: thousands of idle series are re-reported every few milliseconds): "no series twice in one
+	// flush" is judged online, then series that carry no data are dropped from the stored copy and a gauge is kept
+	// only the first time it shows a value
+	slim       bool
+	// In server mode the flusher cannot be observed directly (null statser). It waits for the callbacks of one
+	// flush before it starts the next, so the backend holds the callbacks until every worker has handed its map
+	// over: a flush is exactly the set of hand-overs between two releases.
+	pending    []gostatsd.SendCallback
+	group      int64
+	open       bool // callbacks are answered at once (set before the server is stopped)
+	curFlush   int64
+	curKeys    map[string]bool
+	gaugesSeen map[string]map[float64]bool
+	problems   []string
 }
 
 func (b *captureBackend) Name() string { return "capture" }
@@ -174,11 +188,78 @@ func (b *captureBackend) SendMetricsAsync(ctx context.Context, mm *gostatsd.Metr
 	if b.spy != nil {
 		c.flush = b.spy.flushes.Load()
 	} else {
-		c.flush = int64(len(b.all) / b.workers)
+		c.flush = b.group
+	}
+	if b.slim {
+		if b.curKeys == nil || c.flush != b.curFlush {
+			b.curFlush, b.curKeys = c.flush, map[string]bool{}
+		}
+		if b.gaugesSeen == nil {
+			b.gaugesSeen = map[string]map[float64]bool{}
+		}
+		for k, s := range c.series {
+			if b.curKeys[k] && len(b.problems) < 20 {
+				b.problems = append(b.problems, fmt.Sprintf("twice-in-one-flush: series %q reported twice in flush %d", k, c.flush))
+			}
+			b.curKeys[k] = true
+			switch s.Type {
+			case 1:
+				if s.Counter == 0 {
+					delete(c.series, k)
+				}
+			case 2:
+				if len(s.Values) == 0 && s.SampledCount == 0 {
+					delete(c.series, k)
+				}
+			case 3:
+				if b.gaugesSeen[k] == nil {
+					b.gaugesSeen[k] = map[float64]bool{}
+				}
+				if b.gaugesSeen[k][s.Gauge] {
+					delete(c.series, k)
+				}
+				b.gaugesSeen[k][s.Gauge] = true
+			case 4:
+				if len(s.Members) == 0 {
+					delete(c.series, k)
+				}
+			}
+		}
 	}
 	b.all = append(b.all, c)
+	if b.spy != nil || b.open {
+		b.mu.Unlock()
+		go cb(nil)
+		return
+	}
+	b.pending = append(b.pending, cb)
+	var release []gostatsd.SendCallback
+	if len(b.pending) >= b.workers {
+		release, b.pending = b.pending, nil
+		b.group++
+	}
 	b.mu.Unlock()
-	go cb(nil)
+	for _, f := range release {
+		go f(nil)
+	}
+}
+
+// releaseAll answers every held callback and lets later ones through at once (before the server is stopped: a
+// flush cut short by the shutdown hands over fewer maps than there are workers).
+func (b *captureBackend) releaseAll() {
+	b.mu.Lock()
+	release := b.pending
+	b.pending, b.open = nil, true
+	b.mu.Unlock()
+	for _, f := range release {
+		go f(nil)
+	}
+}
+
+func (b *captureBackend) onlineProblems() []string {
+	b.mu.Lock()
+	defer b.mu.Unlock()
+	return append([]string(nil), b.problems...)
 }
 
 func (b *captureBackend) snapshot() []capture {
@@ -789,7 +870,7 @@ func (c *scriptConn) SetWriteDeadline(time.Time) error { return nil }
 func runServerExecution(t *testing.T, r *mon.Run, cfg config) {
 	r.Case("server execution %+v", cfg)
 	logrus.SetLevel(logrus.PanicLevel)
-	be := &captureBackend{r: r, workers: cfg.Workers}
+	be := &captureBackend{r: r, workers: cfg.Workers, slim: true}
 	var expC, expG, expS, expT time.Duration
 	switch cfg.Expiry {
 	case "never":
@@ -846,17 +927,40 @@ func runServerExecution(t *testing.T, r *mon.Run, cfg config) {
 		merge(want, e)
 	}
 	// every datagram has been read by a receiver goroutine (the channel is unbuffered); now the flusher's own
-	// real-time ticks must bring everything out. 60 s is a watchdog four orders of magnitude above the flush interval.
+	// real-time ticks must bring everything out. "Lost" is decided on progress, not on a fixed time: as long as
+	// the amount of accounted data keeps growing (a backlog of parked or queued batches is draining) the wait goes
+	// on; 45 s without any progress, four orders of magnitude above the flush interval, ends it.
 	var tot *totals
-	ok := mon.WaitUntil(60*time.Second, func() bool {
+	ok := false
+	progress, lastProgress, begin := int64(-1), time.Now(), time.Now()
+	for {
 		tot = analyse(be.snapshot(), want)
-		return complete(tot, want)
-	})
+		if complete(tot, want) {
+			ok = true
+			break
+		}
+		p := int64(tot.ids + tot.members)
+		for _, v := range tot.counters {
+			if v < 0 {
+				v = -v
+			}
+			p += v
+		}
+		if p != progress {
+			progress, lastProgress = p, time.Now()
+		}
+		if time.Since(lastProgress) > 45*time.Second || time.Since(begin) > 20*time.Minute {
+			break
+		}
+		time.Sleep(40 * time.Millisecond)
+	}
 	// a few more flushes: nothing may arrive late or twice
 	n0 := len(be.snapshot())
 	mon.WaitUntil(30*time.Second, func() bool { return len(be.snapshot()) >= n0+3*cfg.Workers })
 	caps := be.snapshot()
+	online := be.onlineProblems() // taken before the server is stopped: a flush cut short by the shutdown hands over fewer maps than workers
 	tot = analyse(caps, want)
+	be.releaseAll()
 	cancel()
 	select {
 	case <-done:
@@ -866,13 +970,13 @@ func runServerExecution(t *testing.T, r *mon.Run, cfg config) {
 	report := func(sig, detail string) {
 		r.Violation(sig, detail+fmt.Sprintf(" [config %+v, %d flush maps, %d lines]", cfg, len(caps), want.lines), cfg)
 	}
-	for _, p := range tot.problems {
+	for _, p := range append(tot.problems, online...) {
 		report(strings.SplitN(p, ":", 2)[0], p)
 	}
 	if !ok || !complete(tot, want) {
 		for k, v := range want.counters {
 			if tot.counters[k] != v {
-				report("counter-sum", fmt.Sprintf("counter %q: sum over all flushes %d, expected sum of trunc(value/rate) %d (60 s after the last datagram was read)", k, tot.counters[k], v))
+				report("counter-sum", fmt.Sprintf("counter %q: sum over all flushes %d, expected sum of trunc(value/rate) %d (no further data arrived for 45 s after the last datagram was read)", k, tot.counters[k], v))
 				break
 			}
 		}
